@@ -540,7 +540,7 @@ type freeResult struct {
 	Problems                 []string
 }
 
-const freeBound = 20 * time.Second
+const freeBound = 10 * time.Second
 
 func runFree(fc *freeCase) freeResult {
 	rng := vx.NewRng(fc.Seed)
@@ -719,7 +719,12 @@ func main() {
 	for i := 0; i < *nScripts; i++ {
 		scripts = append(scripts, randomScript(sr, i))
 	}
+	failures := 0
 	for _, sc := range scripts {
+		if failures >= 5 {
+			st.Count("script:skipped-after-5-failures")
+			continue
+		}
 		res := runScript(sc)
 		cf.Add(scriptCoq(sc, res))
 		st.CaseIndex = append(st.CaseIndex, sc)
@@ -745,6 +750,7 @@ func main() {
 		}
 		st.Sample(map[string]any{"script": sc.Name, "final": last}, 3)
 		if len(res.Problems) > 0 {
+			failures++
 			st.Fail(map[string]any{"kind": "script", "case": sc, "problems": res.Problems, "observations": res.Obs})
 		}
 	}
@@ -752,6 +758,10 @@ func main() {
 	for i := 0; i < *nFree; i++ {
 		fc := &freeCase{Idx: i, Seed: fr.U64(), Workers: 1 + fr.Intn(4), Cancel: fr.Bool(), Panic: fr.Chance(4, 5), Submitters: 1 + fr.Intn(4),
 			PerSub: 5 + fr.Intn(25), Cycles: fr.Intn(4), NoWait: fr.Chance(1, 2), Noise: fr.Chance(2, 3)}
+		if failures >= 8 {
+			st.Count("free:skipped-after-failures")
+			continue
+		}
 		res := runFree(fc)
 		st.CaseIndex = append(st.CaseIndex, fc)
 		st.Case(fmt.Sprintf("%v", *fc), fc.Cycles > 0)
@@ -767,6 +777,7 @@ func main() {
 			cf.Add("CFree true [] [] [] 0%Z true") // identities unobservable without the panic option: judged by the Go oracle only
 		}
 		if len(res.Problems) > 0 {
+			failures++
 			st.Fail(map[string]any{"kind": "free", "case": fc, "problems": res.Problems})
 		}
 	}
